@@ -69,7 +69,32 @@ def run_C15(tier, seed):
                   assumptions=["final positions are recomputed by the model: insertion order, or a stable sort on the unique key"])
 
 
-PROPS = {"C01": run_C01, "C02": run_C02, "C03": run_C03, "C15": run_C15}
+def run_C14(tier, seed):
+    return simple("C14", tier, seed, "exploration",
+                  "part (a): every generated file (bare content packs from C01's generator, bare directory packs from the C02/C03/C15 "
+                  "generators, whole containers in the three packagings with 0..2 extra content packs) is decoded by the independent "
+                  "decoder (harness/src/indep.rs, no jubako code): every layout rule (header CRCs, mirror tail, declared size, check "
+                  "block, blake3 over the documented range with the manifest mask, table lengths, sized offsets, cluster/entry/value "
+                  "store encodings, zero padding) must hold and the decoded entries/indexes/contents must equal the model. "
+                  "Non-trivial and distinct as in C01/C02 plus the case kind and packaging.",
+                  assumptions=["the independent decoder is itself unproven code, validated on the repository's byte-level fixtures' "
+                               "CRC check value and on thousands of generated files", "zstd/lz4/xz2 crates used as plain decompressors, blake3 crate as hash"])
+
+
+def run_C16(tier, seed):
+    return simple("C16", tier, seed, "exploration",
+                  "cases = insertion sequences of 2..30 contents mixing hints yes/no/detect, every algorithm (none/lz4/lzma/zstd), with "
+                  "and without the deduplicating adder (alternating), duplicates at distance incl. with another hint, optional cluster "
+                  "close between duplicates. Oracle on the independent decoder's view of the file: hint 'no' or an uncompressed pack => "
+                  "cluster compression byte 0 and the file bytes at the decoded offset are the content verbatim; hint 'yes' in a "
+                  "compressing pack => compression byte = the pack's algorithm and the cluster decodes; dedup adder => equal contents "
+                  "share one address and the content table has one entry per distinct byte string. The hint clause binds the first "
+                  "insertion of a byte string, the dedup clause the repeats. Detect is tallied, not judged. Non-trivial = at least one "
+                  "judged item. Distinct = hash(compression, level, adder, run-length (length class, hint, source, dup) sequence).",
+                  assumptions=["cluster membership and storage offsets come from the independent decoder"])
+
+
+PROPS = {"C01": run_C01, "C02": run_C02, "C03": run_C03, "C14": run_C14, "C15": run_C15, "C16": run_C16}
 
 
 def cmd_setup():
